@@ -2,6 +2,7 @@
 Raw-reachable buckets and monotonicity of the acknowledged transactions along raw histories.
 -/
 import SierraModel.Lemmas.RecovBlank
+import SierraModel.Lemmas.StoreNumExport
 
 set_option linter.unusedSimpArgs false
 set_option linter.unusedVariables false
@@ -9,14 +10,7 @@ set_option linter.unusedVariables false
 namespace SierraModel.Store
 open SierraModel.Version
 
-/-- reachable from a fresh bucket by a valid raw history (`appendTx` without the client's wait —
-accepted, rejected or failed, with or without rollover — and `sync` steps) -/
-def RawReachable (b : Bucket) : Prop :=
-  ∃ segSize c ops, RawRunOk (Bucket.new segSize c) ops ∧ b = (Bucket.new segSize c).rawRun ops
-
-theorem RawReachable.inv {b : Bucket} (h : RawReachable b) : Inv b := by
-  obtain ⟨segSize, c, ops, hok, rfl⟩ := h
-  exact inv_rawRun ops _ (inv_new segSize c) hok
+/- `RawReachable` and `RawReachable.inv` are defined in `StoreNumExport`. -/
 
 /-- in a synced state everything is acknowledged -/
 theorem synced_durableRecs {b : Bucket} (h : Inv b) (hs : Synced b) : b.durableRecs = b.live.recs := by
